@@ -74,21 +74,32 @@ def c10_histories(tier, seed, tmp, broken, k_fail, s_fail, ev_cov):
     # ---- 3. mixed API histories with refusals vs cold answers
     mixed = []
     bads = ["lunar.month 2024 13", "lunar.new 2024 13 1", "lunar.new 2024 1 31", "solar.new 2023 2 30", "ec.of 1 1 2 12 0 0", "term.of 1 1 3",
-            "lunar.solar 0 1 1", "solar.lunar 10000 1 1", "lunar.year -2", "solar.next 9999 12 31 1", "scd 1 1 2", "sch 1 1 2 23 0 0", "lunar.next 9999 12 1 60"]
+            "lunar.solar 0 1 1", "solar.lunar 10000 1 1", "lunar.year -2", "solar.next 9999 12 31 1", "scd 1 1 2", "sch 1 1 2 23 0 0", "lunar.next 9999 12 1 60",
+            # births whose child limit cannot be built (end beyond 9999; end on a missing day of October 1582): refused inside the strategy call
+            "limit 9999 12 20 12 0 0 1 0", "limit 9995 6 20 12 0 0 1 0", "limit 1572 10 28 12 0 0 0 0"]
     goods = []
     for _ in range(200 if tier == "quick" else 3000):
         y, m, d = rand_date(rng, 2, 9998)
         goods += ["solar.lunar %d %d %d" % (y, m, d), "scd %d %d %d" % (y, m, d), "ec.of %d %d %d %d 30 0" % (y, m, d, rng.randint(0, 23)),
                   "term.of %d %d %d" % (y, m, d), "lunar.month %d %d" % (y, rng.randint(1, 12))]
+        if 1600 <= y <= 9900:
+            goods.append("limit %d %d %d %d %d %d %d %d" % (y, m, d, rng.randint(0, 23), rng.randint(0, 59), rng.randint(0, 59), rng.randint(0, 1), rng.randint(0, 3)))
     for g in goods:
         if rng.random() < 0.5:
             mixed.append(rng.choice(bads))
         mixed.append(g)
     Hm = run([TYMEH, "exec"], mixed)
-    cold_m = []
+    # reference answers: every valid request after a memo reset in a process that never sees a refused request (a refusal
+    # must not poison a lock, a memo or a provider for the requests after it); the refused requests are answered on their own
+    badset = set(bads)
+    cold_good = []
     for op in mixed:
-        cold_m += ["cache.reset", op]
-    Cm = run([TYMEH, "exec"], cold_m)[1::2]
+        if op not in badset:
+            cold_good += ["cache.reset", op]
+    Cg = run([TYMEH, "exec"], cold_good)[1::2]
+    Cb = {b: run([TYMEH, "exec"], [b])[0] for b in bads}
+    it = iter(Cg)
+    Cm = [Cb[op] if op in badset else next(it) for op in mixed]
     for i, op in enumerate(mixed):
         if Hm[i] != Cm[i]:
             ns += 1
